@@ -842,13 +842,14 @@ func racePass(thorough bool) {
 	}
 	type cfg struct {
 		n, procs, rounds int
+		store            string // "" = three servers over memory stores; "sqlite" = ONE server for every role over ONE SQLite database
 	}
-	cfgs := []cfg{{2, 4, 2}, {8, 16, 1}, {16, 16, 1}}
+	cfgs := []cfg{{2, 4, 2, ""}, {8, 16, 1, ""}, {16, 16, 1, ""}, {6, 16, 1, "sqlite"}}
 	if thorough {
-		cfgs = []cfg{{2, 2, 4}, {4, 16, 4}, {8, 4, 2}, {16, 16, 2}, {32, 16, 2}, {64, 16, 2}, {64, 2, 1}}
+		cfgs = []cfg{{2, 2, 4, ""}, {4, 16, 4, ""}, {8, 4, 2, ""}, {16, 16, 2, ""}, {32, 16, 2, ""}, {64, 16, 2, ""}, {64, 2, 1, ""}, {2, 2, 2, "sqlite"}, {12, 16, 1, "sqlite"}, {24, 4, 1, "sqlite"}}
 	}
 	for _, c := range cfgs {
-		cmd := exec.Command(bin, fmt.Sprint(c.n), fmt.Sprint(c.rounds))
+		cmd := exec.Command(bin, fmt.Sprint(c.n), fmt.Sprint(c.rounds), c.store)
 		cmd.Env = append(os.Environ(), fmt.Sprintf("GOMAXPROCS=%d", c.procs), "GORACE=halt_on_error=0 history_size=5")
 		var out bytes.Buffer
 		cmd.Stdout, cmd.Stderr = &out, &out
@@ -915,9 +916,9 @@ func racePass(thorough bool) {
 			continue
 		}
 		if m[2] != "0" {
-			r.Violation("concurrent-onboarding-fails", fmt.Sprintf("%d concurrent devices GOMAXPROCS=%d: %s onboardings failed that succeed alone:%s", c.n, c.procs, m[2], m[3]), map[string]any{"mode": "race", "devices": c.n})
+			r.Violation("concurrent-onboarding-fails"+map[bool]string{true: ":" + c.store}[c.store != ""], fmt.Sprintf("%d concurrent devices GOMAXPROCS=%d store=%q: %s onboardings failed that succeed alone:%s", c.n, c.procs, c.store, m[2], m[3]), map[string]any{"mode": "race", "devices": c.n, "store": c.store})
 		}
-		r.Distinct(fmt.Sprintf("race|n=%d|procs=%d|ok=%s", c.n, c.procs, m[1]))
+		r.Distinct(fmt.Sprintf("race|n=%d|procs=%d|store=%s|ok=%s", c.n, c.procs, c.store, m[1]))
 		r.Add("race_pass_onboardings", int64(c.n*c.rounds))
 	}
 }
@@ -927,7 +928,7 @@ func main() {
 		schedulesShard(shard, n, tier == "thorough").Emit()
 	}
 	r = ev.Start("C19", "model_checking")
-	r.Rule("(K) two complete key exchanges (owner and device side, one encrypted message) as two threads, and two threads signing and verifying COSE_Sign1 objects, with a scheduling point before EVERY statement of internal/nistkdf, kex and cose (source rewritten at check time): all interleavings with at most 2 preemptions for the first suite/cipher pair and 1 for two more (thorough: 3 for the first, 2 for four more); each exchange must derive exactly the keys it derives alone. (S) 2 (thorough up to 3) devices against one manufacturer, rendezvous and owner server: DI||DI, TO0||TO0, TO1||TO1 (at most 3, thorough 5 deviations), TO2||TO2 with voucher replacement (1, thorough 2) and TO2||TO2||DI with mixed key types (1), delay-bounded: every departure from the default run-to-block order, preemption or not, counts as one deviation; scheduling points at every store call and every synchronisation operation of the device pipeline (thorough: one TO2||TO2 scenario also at every kex/nistkdf statement); consecutive executions continue from the state the previous one left (the owner resells the device to itself). Oracle: nobody fails, credential and stored voucher agree per device, each device module received exactly its own payload and each owner module its own echo. (F) TO2 with the transport failing at message k for k in 5..10 (thorough 2..12), all schedules of the device's threads with at most 2 deviations (thorough 3 for k=6,9): no deadlock, no panic, every thread ends (a thread left blocked for ever counts as deadlock). (R) auxiliary free-running pass: the same onboarding bodies for 2..16 (thorough ..64) devices as real goroutines in a -race binary with several GOMAXPROCS; a race report with go-fdo frames is a violation.")
+	r.Rule("(K) two complete key exchanges (owner and device side, one encrypted message) as two threads, and two threads signing and verifying COSE_Sign1 objects, with a scheduling point before EVERY statement of internal/nistkdf, kex and cose (source rewritten at check time): all interleavings with at most 2 preemptions for the first suite/cipher pair and 1 for two more (thorough: 3 for the first, 2 for four more); each exchange must derive exactly the keys it derives alone. (S) 2 (thorough up to 3) devices against one manufacturer, rendezvous and owner server: DI||DI, TO0||TO0, TO1||TO1 (at most 3, thorough 5 deviations), TO2||TO2 with voucher replacement (1, thorough 2) and TO2||TO2||DI with mixed key types (1), delay-bounded: every departure from the default run-to-block order, preemption or not, counts as one deviation; scheduling points at every store call and every synchronisation operation of the device pipeline (thorough: one TO2||TO2 scenario also at every kex/nistkdf statement); consecutive executions continue from the state the previous one left (the owner resells the device to itself). Oracle: nobody fails, credential and stored voucher agree per device, each device module received exactly its own payload and each owner module its own echo. (F) TO2 with the transport failing at message k for k in 5..10 (thorough 2..12), all schedules of the device's threads with at most 2 deviations (thorough 3 for k=6,9): no deadlock, no panic, every thread ends (a thread left blocked for ever counts as deadlock). (R) auxiliary free-running pass: the same onboarding bodies for 2..16 (thorough ..64) devices as real goroutines in a -race binary with several GOMAXPROCS, over three servers with memory stores and over ONE server playing every role on ONE SQLite database; every onboarding must succeed as it does alone, and a race report with go-fdo frames is a violation.")
 	if r.Replay != "" {
 		replay(r.Replay)
 		return
